@@ -12,6 +12,8 @@ Lg == T.log
 N == Len(Lg)
 Typ(q) == T.reqs[q].typ
 \* epoch of a log position: number of expiries before it
+\* (a log event "age": part of a lifetime passes, no sweep - it changes nothing: the lifetime of an entry counts from the exchange that
+\*  stored it, an answered duplicate does not extend it; the "lapse" that follows completes the lifetime)
 Elapsed(j) == Lg[j].e \in {"expire", "lapse"}      \* the lifetime elapsed: followed by a sweep / not swept yet
 Epoch(k) == Cardinality({j \in 1..k : Elapsed(j)})
 IsReply(k) == Lg[k].e = "reply"
@@ -55,7 +57,7 @@ K05_Attributed == J => \A k \in 1..N : IsReply(k) => Attributed(k)
 \* 50 ms before the first deadline removes nothing, the one 50 ms after the last removes everything; 247 s lifetime
 \* (the remaining lifetime is only meaningful while the driver has not aged the entries itself)
 C05_Lifetime == J => \A k \in 1..N : Lg[k].e = "expire" => (Lg[k].copy = Lg[k].q /\ Lg[k].code = 0
-                                                              /\ ((\A j \in 1..k : Lg[j].e # "lapse") => Lg[k].mid \in 245..247))
+                                                              /\ ((\A j \in 1..k : Lg[j].e \notin {"lapse", "age"}) => Lg[k].mid \in 245..247))
 \* ... whether or not a sweep has removed the old entry: a reply that did not come from a handler run of its own was
 \* produced from something stored IN THIS lifetime (a run, or a reply that ran, for the same request)
 C05_FreshAgain == J => \A k \in 1..N : (IsReply(k) /\ Attributed(k) /\ ~Lg[k].ran /\ Epoch(k) > 0) =>
